@@ -438,6 +438,17 @@ def oracle_c10(h, rec):
           if wi and (ri is None or max(wi) > ri):
             st["c10_dangling_written_by_request"] = st.get("c10_dangling_written_by_request", 0) + 1
             continue
+          # likewise a cell that BECOMES a reference only after the removal: a type change of this column to a
+          # reference type later in the same bundle reinterprets whatever the cell held (e.g. a list kept as
+          # alt text in a Date column) - a dangling reference made by that request, not a left-over
+          colref = [r_ for r_, c_ in meta_columns(before).items() if c_["table"] == tid and c_["col"] == cid]
+          ti = [i for i, ua in enumerate(actions)
+                if (ua[0] == "ModifyColumn" and ua[1] == tid and ua[2] == cid and "type" in (ua[3] or {})) or
+                   (ua[0] == "UpdateRecord" and ua[1] == "_grist_Tables_column" and ua[2] in colref and "type" in (ua[3] or {})) or
+                   (ua[0] == "BulkUpdateRecord" and ua[1] == "_grist_Tables_column" and set(ua[2]) & set(colref) and "type" in (ua[3] or {}))]
+          if ti and (ri is None or max(ti) > ri):
+            st["c10_dangling_made_by_type_change_after_removal"] = st.get("c10_dangling_made_by_type_change_after_removal", 0) + 1
+            continue
           sig = classify_c10(actions, tid, tgt, kind)
           h._find("C10", sig, "%s[%d].%s = %r still refers to removed row %s[%d]" % (tid, row, cid, cell, tgt, t), rec)
         # RefList clause: other ids in order, None when nothing remains
